@@ -283,7 +283,34 @@ def gen_counter():
     return "GenCounter.v", text, {"counted": arms, "relevant_if_gt": int(m.group(1))}
 
 
-GENERATORS = {"proc": gen_proc, "vte": gen_vte, "features": gen_features, "syntax": gen_syntax, "counter": gen_counter}
+def gen_grep():
+    """the regex delta uses for coloured grep lines (GrepLineRegex::WithColor in src/handlers/grep.rs),
+    normalised (extended-mode comments and whitespace removed), compared with the regex that
+    GrepColour.v implements as a direct parser"""
+    src = open(os.path.join(REPO, "src/handlers/grep.rs"), encoding="utf-8").read()
+    body = rustsrc.fn_body(src, r"fn make_grep_line_regex\(")
+    m1 = re.search(r'GrepLineRegex::WithColor => \{\s*r"(.*?)"\s*\}', body, re.S)
+    m2 = re.search(r'GrepLineRegex::WithColor => \{\s*r#"(.*?)"#\s*\}', body, re.S)
+    fm = re.search(r'Regex::new\(&format!\(\s*"(.*?)",\s*\)\)', body, re.S)
+    if not (m1 and m2 and fm):
+        raise PatternError("make_grep_line_regex: the WithColor arms / the format! call were not found")
+
+    def normx(t):
+        t = "".join(re.sub(r"(?<!\\)#.*$", "", line) for line in t.split("\n"))
+        return re.sub(r"(?<!\\)\s+", "", t)
+    got = (normx(m1.group(1)), normx(m2.group(1)), normx(fm.group(1)))
+    want = (r"\x1b\[35m([^\x1b]*)\x1b\[m",
+            r"\x1b\[36m(?:(:\x1b\[m(?:\x1b\[32m([0-9]+)\x1b\[m\x1b\[36m:\x1b\[m)?)|(-\x1b\[m(?:\x1b\[32m([0-9]+)\x1b\[m\x1b\[36m-\x1b\[m)?)|(=\x1b\[m(?:\x1b\[32m([0-9]+)\x1b\[m\x1b\[36m=\x1b\[m)?))",
+            r"(?x)^{file_path}{separator}(.*)$")
+    same = got == want
+    text = ("(* GENERATED by tools/translate.py from src/handlers/grep.rs make_grep_line_regex: is the coloured-line\n"
+            "   regex (normalised) the one GrepColour.v implements?  The normalised regex of the current tree:\n"
+            "   file path : " + got[0].replace("*)", "* )") + "\n   separator : " + got[1].replace("*)", "* )") + "\n   whole     : " + got[2].replace("*)", "* )") + " *)\n"
+            f"Definition colour_regex_is_modelled : bool := {coq_bool(same)}.\n")
+    return "GenGrep.v", text, {"colour_regex_is_modelled": same}
+
+
+GENERATORS = {"proc": gen_proc, "vte": gen_vte, "features": gen_features, "syntax": gen_syntax, "counter": gen_counter, "grep": gen_grep}
 
 
 def run(which=None):
